@@ -94,8 +94,37 @@ func checkPair(c *ukit.Spec, cs schema.Type, pr pair, tier string, res *ux.Resul
 	}
 	link(c)
 	link(pr.p)
+	evaluatePair(c, cs, ps, pr, "", res)
+	// The same pair with consumer and producer sharing the schema objects of their common parts (one plugin's schema
+	// used on both sides of a connection): identity of parts must not stand in for comparing the whole.
+	if shareable(c) && shareable(pr.p) {
+		ukit.Share = map[string]*schema.ObjectSchema{}
+		cs2, ok1 := buildSafe(c)
+		ps2, ok2 := buildSafe(pr.p)
+		ukit.Share = nil
+		if ok1 && ok2 {
+			evaluatePair(c, cs2, ps2, pr, " [common parts shared by identity]", res)
+		}
+	}
+}
+
+// shareable: the spec has objects, and no references (a shared object's references would be linked into two scopes).
+func shareable(s *ukit.Spec) bool {
+	objs, refs := false, false
+	s.Walk(func(n *ukit.Spec) {
+		if n.Kind == ukit.KObject {
+			objs = true
+		}
+		if n.Kind == ukit.KRef || n.Kind == ukit.KScope {
+			refs = true
+		}
+	})
+	return objs && !refs
+}
+
+func evaluatePair(c *ukit.Spec, cs, ps schema.Type, pr pair, tag string, res *ux.Result) {
 	rp := replay{c, pr.p, pr.what}
-	desc := fmt.Sprintf("consumer %s\nproducer (%s) %s", c, pr.what, pr.p)
+	desc := fmt.Sprintf("consumer %s\nproducer (%s) %s%s", c, pr.what, pr.p, tag)
 	verdicts := map[string]string{}
 	var first string
 	execs := 0
